@@ -371,3 +371,72 @@ func ZZ_C16_H4() {
 	}
 	zz.Assert("names-handed-out-are-pairwise-distinct", distinct)
 }
+
+// ZZ_C16_H5: handler-by-method: every method names the package its handler lives in; the router
+// file imports each package once under an alias. Two or three routes whose handler packages come
+// from paths with the same or colliding base names (h/a-b, h/a_b, g/a_b, h/a): aliases are valid
+// identifiers, one package has one alias, two packages never share one, and each route is bound
+// to <alias of its package>.<declared name>.
+func ZZ_C16_H5() {
+	pkgs := []string{"proj/h/a-b", "proj/h/a_b", "proj/g/a_b", "proj/h/a"}
+	k := zz.Range("routes", 2, 3)
+	root := NewRouterTree()
+	var chosen []string
+	for i := 0; i < k; i++ {
+		pkg := pkgs[zz.Choose("handlerPackage", len(pkgs))]
+		chosen = append(chosen, pkg)
+		m := &HttpMethod{Name: "Method" + string(rune('A'+i)), HTTPMethod: "GET", Path: "/r/" + string(rune('x'+i))}
+		err := root.Update(m, "svc", pkg, zz.Choose("sortRouter", 2) == 1)
+		zz.Assert("declared-route-accepted", err == nil)
+		if err != nil {
+			return
+		}
+	}
+	zz.Assert("names-assigned", root.DyeGroupName(false) == nil)
+	// what genRouter collects for the import block: alias -> package
+	imports := map[string]string{}
+	clash := false
+	var handlers []string
+	root.DFS(0, func(layer int, node *RouterNode) error { //nolint:errcheck
+		if len(node.HandlerPackage) != 0 {
+			if p, ok := imports[node.HandlerPackageAlias]; ok && p != node.HandlerPackage {
+				clash = true
+			}
+			imports[node.HandlerPackageAlias] = node.HandlerPackage
+			handlers = append(handlers, node.Handler+"@"+node.HandlerPackage)
+		}
+		return nil
+	})
+	zz.Cover("reached-assert", true)
+	zz.Assert("two-packages-never-share-an-alias", !clash)
+	valid := true
+	for a := range imports {
+		if !zzIdentOK(a) {
+			valid = false
+		}
+	}
+	zz.Assert("aliases-are-valid-identifiers", valid)
+	ok := len(handlers) == k
+	for i, pkg := range chosen {
+		alias := ""
+		for a, p := range imports {
+			if p == pkg {
+				if alias != "" {
+					ok = false // one package imported under two aliases
+				}
+				alias = a
+			}
+		}
+		found := false
+		for _, h := range handlers {
+			if h == alias+".Method"+string(rune('A'+i))+"@"+pkg {
+				found = true
+			}
+		}
+		if !found {
+			ok = false
+		}
+	}
+	zz.Cover("colliding-base-names", len(imports) >= 2)
+	zz.Assert("each-route-bound-to-its-package-alias-and-declared-name", ok)
+}
